@@ -17,10 +17,26 @@ from fv.sim import Circuit
 EXPECT = {   # settled named outputs for the values written in the corpus sources
     "arith": {"r1": 17, "r2": -2},
     "cond": {"r": 5, "q": 7},
-    "merge": {"total": 350, "twice": 700},
+    "merge": {"twice": 700},
     "bundle": {"s": 4, "an": 1},
-    "untyped": {"r": 64, "s": 0},
 }
+
+
+def behaviour(bp):
+    """settled value at every output anchor (40 ticks; free-running circuits: the state after 40 ticks)"""
+    c = Circuit(bp)
+    st = c.initial_state()
+    for _ in range(40):
+        st = c.tick(st)
+    out = {}
+    for e in bp["entities"]:
+        wt = observe.what(e)
+        if "(output anchor)" in wt:
+            name = wt.split(" (output anchor)")[0]
+            out[name] = observe.by_name(c.at(st, e["entity_number"]))
+            if len(out[name]) == 1:
+                out[name] = list(out[name].values())[0]
+    return out
 QUICK_PROGS = ["arith", "cond", "bundle", "cell", "latch-sr", "entity"]
 
 
@@ -96,6 +112,8 @@ class C07(core.Check):
         bad = []
         n = 0
         planned = {}
+        pbp_cache = {}
+        planned_beh = {}
         seen_forms = {}
         with tempfile.TemporaryDirectory() as td:
             fp = os.path.join(td, "my_prog.facto")
@@ -145,19 +163,23 @@ class C07(core.Check):
                 if key not in planned:
                     harness.compile_src(src, optimize=not noopt, poles="medium" if poles else None)
                     pbp = harness.LAST["blueprint"].to_dict(version=(2, 0))["blueprint"]
+                    pbp_cache[key] = pbp
                     planned[key] = canon.canonical(pbp)
                 d, form = canon.canonical(bp)
                 if d != planned[key][0]:
                     bad.append((tag, ("differs from the planned circuit", canon.explain_diff(planned[key][1], form))))
                 seen_forms.setdefault(key, set()).add(d)
+                # executing the decoded text gives the behaviour of the planned circuit: every anchor reads the same
+                beh = behaviour(bp)
+                if key not in planned_beh:
+                    planned_beh[key] = behaviour(pbp_cache[key])
+                if beh != planned_beh[key]:
+                    bad.append((tag, f"executing the decoded text gives {str(beh)[:120]}, the planned circuit {str(planned_beh[key])[:120]}"))
                 exp = EXPECT.get(case["program"])
                 if exp and not poles:
-                    c = Circuit(bp)
-                    st, k = c.settle(c.initial_state(), 40)
                     for o, v in exp.items():
-                        got = explore.own_value(c, st, observe.output_view(c, o))
-                        if k is None or got != v:
-                            bad.append((tag, f"executing the decoded text: {o} = {got}, expected {v}"))
+                        if beh.get(o) != v:
+                            bad.append((tag, f"executing the decoded text: {o} = {beh.get(o)}, expected {v}"))
             for key, ds in seen_forms.items():
                 if len(ds) > 1:
                     bad.append((str(key), "string / --json / -o forms describe different blueprints"))
